@@ -22,7 +22,9 @@ RULE = ('one hypothesis example = one generated XSD schema spec (built-in atomic
         'one evaluation per typed element or attribute node; non-trivial = node whose type is a list, union, user '
         'restriction, derived built-in, xsi:type substitution, or whose value comes from a default/fixed constraint; '
         'select: non-trivial = path selecting >= 1 node on an instance with such a node, or with a value predicate; '
-        'distinct by (schema hash, instance hash, node path | path expression).')
+        'reapply: one history per instance (no schema -> schema -> None -> same schema on one context, and '
+        'apply_schema() on an already iterated node tree), non-trivial = the instance has typed non-union nodes; '
+        'distinct by (schema hash, instance hash, node path | path expression + parser | history).')
 ASSUMPTIONS = [
     'xmlschema (validator and simple-type decoder) is the trusted schema processor: numbers, booleans, strings, '
     'anyURI and QName values are compared with what it decodes from the same text via canonical lexical forms',
@@ -37,7 +39,11 @@ ASSUMPTIONS = [
     'value predicates only compare nodes whose typed and untyped comparison with the literal provably agree '
     '(numeric types with small integer literals, xs:string, xs:boolean, xs:date; never nillable, list or union '
     'typed names); parsers 2.0/3.0/3.1 are rotated over (path, instance) pairs',
-    'negative instance-of tests use a built-in type of a different primitive family only',
+    'negative instance-of tests use a built-in type of a different primitive family only; positive tests: the nearest '
+    'named type, its base and one further ancestor, xs:anySimpleType/xs:anyAtomicType/xs:anyType on a sample of nodes; '
+    'nilled elements must fail element(*, T) and match element(*, T?)',
+    'arithmetic on union-typed nodes is only probed with one `eq` expression (a known finding makes every operator on '
+    'them fail statically); document order between a defaulted attribute node and the element children is not judged',
     'substitution groups, wildcards, mixed content, assertions, identity constraints, ID/IDREF are not generated',
 ]
 FLOORS = {
@@ -53,7 +59,9 @@ FLOORS = {
     'node:union': (0.02, 'node'),
     'node:restriction': (0.08, 'node'),
     'node:attr': (0.10, 'node'),
-    'path:nonempty': (0.30, 'path'),
+    'node:xsi-type-complex': (0.005, 'node'),
+    'node:xsi-type-simple': (0.005, 'node'),
+    'path:nonempty': (0.25, 'path'),
     'path:value-pred': (0.05, 'path'),
     'path:attr': (0.10, 'path'),
 }
@@ -426,13 +434,12 @@ def _literal_for(builtin: str, canonical: str) -> str | None:
 
 
 def _negative_type(prims: set) -> str:
-    for cand, p in (('xs:boolean', 'boolean'), ('xs:date', 'date'), ('xs:int', 'decimal'), ('xs:duration', 'duration')):
-        if p not in prims and 'string' not in prims:
+    """a built-in type of a primitive family none of the (possible) item types belongs to"""
+    for cand, p in (('xs:boolean', 'boolean'), ('xs:date', 'date'), ('xs:hexBinary', 'hexBinary'),
+                    ('xs:duration', 'duration')):
+        if p not in prims:
             return cand
-        if p not in prims and cand != 'xs:int':
-            # 'true'/'2000-01-01' typed as string are still str objects: never instances of boolean/date
-            return cand
-    return 'xs:hexBinary'
+    return 'xs:gDay'
 
 
 def judge_nodes(case, rec: Recorder | None = None) -> list[Disc]:
@@ -475,6 +482,8 @@ def judge_nodes(case, rec: Recorder | None = None) -> list[Disc]:
             classes = ['node', 'node:' + r['kind']]
             nontrivial = r['source'] in ('default', 'fixed', 'nil') or bool(r['xsi'])
             if sres is not None:
+                if sres['variety'] == 'atomic':
+                    classes.append('type:' + sres['builtin'])
                 if sres['variety'] in ('list', 'union'):
                     classes.append('node:' + sres['variety'])
                     nontrivial = True
@@ -485,6 +494,10 @@ def judge_nodes(case, rec: Recorder | None = None) -> list[Disc]:
                     nontrivial = True
                 if res['variety'] == 'sc':
                     classes.append('node:simple-content')
+                    if r['xsi'] and r['kind'] == 'elem':
+                        classes.append('node:xsi-type-complex')
+                elif r['xsi'] and r['kind'] == 'elem':
+                    classes.append('node:xsi-type-simple')
             if r['source'] in ('default', 'fixed'):
                 classes.append('node:value-constraint')
             ds = _judge_node(ev, b, spec, schema, r, pidx, xsd)
